@@ -168,7 +168,7 @@ func Sync(logger *log.Logger, oldVersion string, newVersion string, dryRun bool)
 		},
 		func(e EntryV3) {
 			if idx < len(blocks) {
-				for e.TileID > blocks[idx].Start {
+				for idx < len(blocks) && e.TileID > blocks[idx].Start {
 					mu.Lock()
 					wanted = append(wanted, blocks[idx])
 					mu.Unlock()
@@ -176,7 +176,7 @@ func Sync(logger *log.Logger, oldVersion string, newVersion string, dryRun bool)
 					idx = idx + 1
 				}
 
-				if e.TileID == blocks[idx].Start {
+				if idx < len(blocks) && e.TileID == blocks[idx].Start {
 					tasks <- syncTask{NewBlock: blocks[idx], OldOffset: e.Offset}
 					bar.Add(1)
 					idx = idx + 1
